@@ -96,3 +96,53 @@ func VerifC11_OperandPositions() {
 	}
 	verifrt.Assert(got == want, "C11 the literal denotes exactly its string as operand: "+vC11Templates[k])
 }
+
+// several escaped literals in ONE filter: each denotes its own string (nothing
+// carried over from the literal decoded before it)
+var vC11Pairs = [][2]string{{"a\\b", "c\"d"}, {"x\ty", "p\\q"}, {"\"", "\\"}, {"C:\\temp", "D:\\data"}}
+
+func verifC11PairQueries() []string {
+	var qs []string
+	for _, p := range vC11Pairs {
+		a, b := verifEscapeLiteral(p[0]), verifEscapeLiteral(p[1])
+		qs = append(qs, `s in ["`+a+`", "`+b+`"]`, `s = "`+a+`" or s = "`+b+`"`, `s contains "`+a+`" and s contains "`+b+`"`)
+	}
+	return qs
+}
+
+func init() {
+	verifQueryFamilies = append(verifQueryFamilies, verifC11PairQueries)
+}
+
+func VerifC11_SeveralLiteralsInOneFilter() {
+	k := verifrt.Choose("pair", len(vC11Pairs))
+	form := verifrt.Choose("form", 3)
+	a, b := vC11Pairs[k][0], vC11Pairs[k][1]
+	var v string
+	switch verifrt.Choose("v.kind", 5) {
+	case 0:
+		v = verifrt.StringUpTo("v", 2)
+	case 1:
+		v = a
+	case 2:
+		v = b
+	case 3:
+		v = a + b
+	case 4:
+		v = b + "-" + a
+	}
+	st := newSymTab()
+	st.syms["s"] = &vSym{typ: NodeTypeString, s: v}
+	text := verifC11PairQueries()[3*k+form]
+	q, err := Parse(st, text)
+	verifrt.Assert(err == nil, "C11 a filter with several escaped literals is accepted: "+text)
+	got := q.EvalBool(st)
+	var want bool
+	switch form {
+	case 0, 1:
+		want = verifrt.Or(v == a, v == b)
+	case 2:
+		want = verifrt.And(strings.Contains(v, a), strings.Contains(v, b))
+	}
+	verifrt.Assert(got == want, "C11 each of several literals in one filter denotes exactly its own string: "+text)
+}
